@@ -672,11 +672,15 @@ func (p *parser) readArgValues() (avs []*ArgValue, err error) {
 
 func (p *parser) readArgValue() (av *ArgValue, err error) {
 	av = &ArgValue{}
+	// The location is where the name starts, its first character is the
+	// one just read by the caller. After readToken the scanner may be on
+	// the next line.
+	line, col := p.line, p.col-1
 	if av.Arg, err = p.readToken(); err != nil {
 		return
 	}
-	av.line = p.line
-	av.col = p.col - len(av.Arg) - 1
+	av.line = line
+	av.col = col
 	if len(av.Arg) == 0 {
 		return nil, parseError(p.line, p.col, "argument name missing")
 	}
